@@ -106,7 +106,9 @@ class World:
         for i in range(self.n_ant):
             pi, qi = [], []
             for j in range(spec["rays"][i]):
-                pi.append(ray_path(self.pyrex, tag, i, j))
+                # (optionally every antenna is handed the very same path objects as antenna 0 -
+                # co-located antennas - while the polarizations stay per antenna)
+                pi.append(ray_path(self.pyrex, tag, 0 if spec.get("share_paths") else i, j))
                 qi.append(unit((1.0 + tag, 2.0 + i, 3.0 + j)))
             paths.append(pi)
             pols.append(qi)
